@@ -27,6 +27,17 @@ var (
 	Quiet    bool
 )
 
+// Params holds the harness parameters of the current run (native only).
+var Params = map[string]int{}
+
+// Param returns a harness parameter (bounds such as window sizes).
+func Param(name string, def int) int {
+	if v, ok := Params[name]; ok {
+		return v
+	}
+	return def
+}
+
 // Reset clears the per-run state (native only).
 func Reset(m map[string]uint64) {
 	model = m
